@@ -67,3 +67,37 @@ Definition on_message (addr_has_pid : bool) (known : N -> bool) (m : mnode) (pid
         end
       else mkMN (on_bad_message addr_has_pid (nd m) pid ip now) (rl m)
   end.
+
+(* ---- finer granularity: increaseCounter and checkLimit are TWO critical sections of rpcMessageCounter.mu; goroutines handling
+   different messages interleave between them *)
+Definition inc (r : limiter) (proc peer : N) : limiter :=
+  mkRL (fun p q => if (p =? proc)%N && (q =? peer)%N then cnt r proc peer + 1 else cnt r p q) (limit r) (penalty r).
+Definition check (r : limiter) (proc peer : N) : limiter * option Z :=
+  if limit r proc <? cnt r proc peer
+  then (mkRL (fun p q => if (p =? proc)%N && (q =? peer)%N then 0 else cnt r p q) (limit r) (penalty r), Some (penalty r proc))
+  else (r, None).
+
+Inductive iev := IInc (proc peer : N) | ICheck (proc peer : N) | IReset.
+
+Fixpoint irun (r : limiter) (es : list iev) : limiter * list (N * N * Z) :=
+  match es with
+  | [] => (r, [])
+  | IInc p q :: es' => irun (inc r p q) es'
+  | ICheck p q :: es' =>
+      let '(r', pen) := check r p q in
+      let '(r'', ps) := irun r' es' in
+      (r'', match pen with Some a => (p, q, a) :: ps | None => ps end)
+  | IReset :: es' => irun (reset r) es'
+  end.
+
+(* increments of (proc, peer) since the last reset, reading the trace backwards *)
+Fixpoint incs_since_reset (proc peer : N) (rev_es : list iev) : Z :=
+  match rev_es with
+  | [] => 0
+  | IReset :: _ => 0
+  | IInc p q :: es' => (if (p =? proc)%N && (q =? peer)%N then 1 else 0) + incs_since_reset proc peer es'
+  | ICheck _ _ :: es' => incs_since_reset proc peer es'
+  end.
+
+Definition ilegal (lim : N -> Z) (es : list iev) : Prop :=
+  forall pre post, es = pre ++ post -> forall proc peer, incs_since_reset proc peer (List.rev pre) <= lim proc.
